@@ -61,7 +61,8 @@ def tree_hash():
     for tool in ("mirdump", "srcdump"):
         files.append(os.path.join(VERIF, "tools", tool, "src/main.rs"))
     for p in files:
-        h.update(p.encode())
+        rel = os.path.relpath(p, REPO) if p.startswith(REPO + os.sep) else os.path.relpath(p, VERIF)
+        h.update(rel.encode())
         h.update(b"\0")
         with open(p, "rb") as fh:
             h.update(fh.read())
